@@ -2,6 +2,7 @@ import LospanVerif.Basic
 import LospanVerif.Model.Gateway
 import LospanVerif.Driver.PhyIO
 import LospanVerif.Model.Eui
+import LospanVerif.Model.Router
 /- Driver handlers for the gateway engine (stateful: registry, switch, PULL ports). -/
 namespace LospanVerif
 namespace Driver
@@ -98,6 +99,33 @@ def handleEui : List String → String
       s!"eui={xh (Model.Eui.newEUI m n k)} inspace={b01 (decide (k ≤ Model.Eui.maxID))} maxnet={Model.Eui.maxNetID size}"
     | _, _, _ => "bad-args"
   | _ => "bad-args"
+
+def natsText (l : List Nat) : String := if l.isEmpty then "-" else String.intercalate "," (l.map toString)
+
+/-- Router engine: `rt.reset`, `rt.sub id`, `rt.unsub ch`, `rt.pub id ev`, `rt.read ch`, `rt.state`. -/
+def handleRt (s : Model.Router.St) : List String → Model.Router.St × String
+  | ["rt.reset"] => (Model.Router.init, "ok")
+  | ["rt.sub", id] =>
+    match nat? id with
+    | some i => (Model.Router.step s (.subscribe i), s!"ch={s.nextCh}")
+    | none => (s, "bad-args")
+  | ["rt.unsub", ch] =>
+    match nat? ch with
+    | some c => (Model.Router.step s (.unsubscribe c), "ok")
+    | none => (s, "bad-args")
+  | ["rt.pub", id, ev] =>
+    match nat? id, nat? ev with
+    | some i, some e => (Model.Router.step s (.publish i e), "ok")
+    | _, _ => (s, "bad-args")
+  | ["rt.read", ch] =>
+    match nat? ch with
+    | some c =>
+      let s' := Model.Router.step s (.read c)
+      (s', s!"new={natsText (s.buf c)} closed={b01 (s.closed.contains c)}")
+    | none => (s, "bad-args")
+  | ["rt.state"] =>
+    (s, s!"routes={natsText (s.routes.map (·.ch))} closed={natsText s.closed.reverse} bad={b01 s.sentOnClosed}")
+  | _ => (s, "bad-args")
 
 end Driver
 end LospanVerif
